@@ -288,8 +288,31 @@ func checkC13(c *Ctx, p *Prog, r *Result) {
 	// (3) one MAC routine
 	r.rule("C13.one-mac-routine", "MacAlgorithm.NewMac is called only from Mac0.Digest, which both creation and verification use")
 	r.floor("C13.one-mac-routine", 1)
+	// the caller is Mac0.Digest, or an unexported helper of package cose that is
+	// itself reachable only from Mac0.Digest
+	var onlyFromDigest func(fn *ssa.Function, depth int) bool
+	onlyFromDigest = func(fn *ssa.Function, depth int) bool {
+		if p.FuncName(fn) == "fdo/cose.Mac0.Digest" {
+			return true
+		}
+		n := fn.Name()
+		if depth > 3 || funcPkgPath(fn) != modulePath+"/cose" || n == "" || (n[0] >= 'A' && n[0] <= 'Z') {
+			return false
+		}
+		callers := 0
+		for _, ed := range p.CallGraph().in[fn] {
+			if isHarnessPkg(funcPkgPath(ed.Caller)) {
+				continue
+			}
+			if ed.Kind != "static" || !onlyFromDigest(ed.Caller, depth+1) {
+				return false
+			}
+			callers++
+		}
+		return callers > 0
+	}
 	for _, call := range p.callsTo("fdo/cose.MacAlgorithm.NewMac") {
-		r.table(p, "C13.one-mac-routine", siteKey(p, call), p.instrPos(call), p.FuncName(call.Parent()) == "fdo/cose.Mac0.Digest", "caller "+p.FuncName(call.Parent()))
+		r.table(p, "C13.one-mac-routine", siteKey(p, call), p.instrPos(call), onlyFromDigest(call.Parent(), 0), "caller "+p.FuncName(call.Parent()))
 	}
 
 	// (3b) block-MAC state: zero padding of the last block must not erase the chaining state
